@@ -215,6 +215,9 @@ TABLE.update({
     "c08_plan_preserved_wires_dropped.diff": ("box", "contracts.c12:plan_connections_c:plan_connections_arg_sets", None),
     "c08_plan_always_succeeds.diff": ("box", "contracts.c12:plan_connections_c:plan_connections_arg_sets", None),
     "c12_plan_edge_lock_ignored.diff": ("box", "contracts.c12:plan_connections_c:plan_connections_arg_sets", None),
+    "c02_expand_nested_merge_not_flattened.diff": ("box", "contracts.c12:expand_merges:expand_merges_arg_sets", None),
+    "c12_expand_source_not_resolved.diff": ("box", "contracts.c12:expand_merges:expand_merges_arg_sets", None),
+    "c02_expand_merge_origin_forgotten.diff": ("box", "contracts.c12:expand_merges:expand_merges_arg_sets", None),
     "c12_populate_ignores_planned_colour.diff": ("box", "contracts.c12:populate:populate_arg_sets", None),
     "c04_populate_feedback_pair_into_tree.diff": ("box", "contracts.c12:populate:populate_arg_sets", None),
     "c12_populate_groups_by_signal_only.diff": ("box", "contracts.c12:populate:populate_arg_sets", None),
